@@ -1,5 +1,73 @@
-import Smooth.Model.Surface
+/-
+C02 — DomainError is raised exactly at the points outside the (strict) domain.
+
+`Dom` (Real/Spec.lean) demands the documented condition of *every* sub-expression — zero denominator,
+non-positive logarithm argument, non-positive base of a general power, zero under a root with n ≥ 2,
+negative under an even root — so "even if that sub-expression cannot influence the result" is part of
+the quantifier, not of a sample.
+-/
+import Smooth.Proofs.Eval
+
 namespace Smooth
-/-- placeholder while the property file is being written -/
-theorem C02_placeholder : (1 : Nat) = 1 := rfl
+open Expr
+
+/-- **C02.**  At a point that supplies the expression, the evaluator answers `DomainError` exactly
+when some sub-expression is outside its documented domain. -/
+theorem eval_domain_iff (p : Point ℝ) (e : Expr ℝ) (hwf : WF e) (hs : Supp p e) :
+    evalG realNum p e = .error .domain ↔ ¬ Dom (valOf p) e :=
+  (evalR_good p e hwf).domain_iff hs
+
+/-- On the domain it never raises, and the result is a real number (`Except.ok` of an element of ℝ:
+not NaN, not an infinity, not complex — by the type of the model, whose primitive operations can
+only fail with an explicit error value, none of which occurs: see C17). -/
+theorem eval_on_domain (p : Point ℝ) (e : Expr ℝ) (hwf : WF e) (hs : Supp p e)
+    (hd : Dom (valOf p) e) : ∃ v : ℝ, evalG realNum p e = .ok v :=
+  ⟨den (valOf p) e, ((evalR_good p e hwf).ok_iff).mpr ⟨hs, hd, rfl⟩⟩
+
+/-- the only outcomes of evaluation at a supplied point: a value, or `DomainError` -/
+theorem eval_supplied_outcomes (p : Point ℝ) (e : Expr ℝ) (hwf : WF e) (hs : Supp p e) :
+    (∃ v : ℝ, evalG realNum p e = .ok v) ∨ evalG realNum p e = .error .domain := by
+  by_cases hd : Dom (valOf p) e
+  · exact Or.inl (eval_on_domain p e hwf hs hd)
+  · exact Or.inr ((eval_domain_iff p e hwf hs).mpr hd)
+
+/-! The offending sub-expression matters under every parent that makes it irrelevant to the value: -/
+
+/-- under a zero factor, in any position -/
+theorem dom_under_zero_factor (ρ : String → ℝ) (f g : Flags) (pre post : List (Expr ℝ)) (u : Expr ℝ)
+    (h : Dom ρ (.mul f (pre ++ [.const g 0, u] ++ post))) : Dom ρ u := by
+  simp only [Dom] at h
+  induction pre with
+  | nil => simpa [DomList] using h.2.1
+  | cons a as ih => exact ih (by simpa [DomList] using h.2)
+
+/-- as the exponent of base one -/
+theorem dom_under_base_one (ρ : String → ℝ) (f g : Flags) (u : Expr ℝ)
+    (h : Dom ρ (.pow f (.const g 1) u)) : Dom ρ u := h.2.1
+
+/-- under a zero numerator -/
+theorem dom_under_zero_numerator (ρ : String → ℝ) (f g : Flags) (u : Expr ℝ)
+    (h : Dom ρ (.div f (.const g 0) u)) : Dom ρ u ∧ den ρ u ≠ 0 := h.2
+
+/-- hence e.g. `0 * (1/x)` and `1 ** log x` raise at `x = 0` although their value would be defined -/
+theorem hidden_offender_raises (x : String) :
+    evalG realNum [(x, 0)] (mkMul [mkConst 0, mkRecip (mkVar x)]) = .error .domain ∧
+    evalG realNum [(x, 0)] (mkPow (mkConst 1) (mkLog (mkVar x) (Real.exp 1))) = .error .domain := by
+  constructor
+  · apply (eval_domain_iff _ _ (by simp [WF, WFList]) (by simp [Supp, SuppList, Point.get?])).mpr
+    simp [Dom, DomList, den, valOf, Point.get?]
+  · have hwf : WF (mkPow (mkConst (1 : ℝ)) (mkLog (mkVar x) (Real.exp 1))) := by
+      exact ⟨trivial, Real.exp_pos 1, exp_one_ne_one, trivial⟩
+    apply (eval_domain_iff _ _ hwf (by simp [Supp, Point.get?])).mpr
+    simp [Dom, den, valOf, Point.get?]
+
+/-- non-vacuity of `eval_domain_iff`: a supplied point outside the domain exists (and one inside) -/
+example : ∃ (p : Point ℝ) (e : Expr ℝ), WF e ∧ Supp p e ∧ ¬ Dom (valOf p) e :=
+  ⟨[("x", -4)], mkNRoot (mkVar "x") 2, by simp [WF], by simp [Supp, Point.get?],
+    by simp [Dom, den, valOf, Point.get?]⟩
+
+example : ∃ (p : Point ℝ) (e : Expr ℝ), WF e ∧ Supp p e ∧ Dom (valOf p) e :=
+  ⟨[("x", -8)], mkNRoot (mkVar "x") 3, by simp [WF], by simp [Supp, Point.get?],
+    by simp [Dom, den, valOf, Point.get?]⟩
+
 end Smooth
